@@ -1,6 +1,8 @@
 import BSModel.Proofs.Construct
 import BSModel.Proofs.Envelope
 import BSModel.Gen.C06Exc
+import BSModel.Proofs.EnvelopeTokenizer
+import BSModel.Props.C03
 /-! # C06 — any `str`/`bytes` input yields a tree or `ParserRejectedMarkup`, never another failure
 
 Property theorems only. Claimed level: PARTIAL. The repository's own logic (pre-parse heuristics, numeric
@@ -1099,5 +1101,172 @@ example : (constructE Code.live { Prims.silent with lookup := fun _ => .error .s
 
 example : ∃ e ∈ [1, 2], Prims.quiet.isAscii e = false ∧ ∃ c t, findCodecE Code.live Prims.quiet e = .ok (some c) ∧
     Prims.quiet.decode c true = .ok t := ⟨1, by simp, rfl, 1, [120], rfl, rfl⟩
+
+/-! ## the parse through the tokenizer MODEL (`Model/Tokenizer.lean`, tied to CPython's `html.parser` by `./check TK`)
+
+`feedClose c text` = `parser.feed(text); parser.close()` under `HTMLParserTreeBuilder.feed`'s `try`, as the composition
+tokenizer model → bs4's handlers (`Adapter.toEvents`) → construction machine (`Builder.build`), for EVERY text, every
+behaviour of the tokenizer's two standard-library parameters (`html.unescape`, `str.lower`: total functions here — that the
+real `html.unescape` can raise `ValueError` stays measured) and every handler/builder configuration. The tokenizer is no
+longer a recorded stream or a hypothesis in these statements. -/
+section TokenizerModel
+open BS.EnvelopeTokenizer BS.Tokenizer
+
+/-- **every text ends in exactly one of {a tree, ParserRejectedMarkup}.** The tokenizer model's only raise is the
+    `AssertionError` of `parse_marked_section` (`Flag.err`), which `feed` converts; otherwise the handlers and the
+    construction machine — total functions on every callback stream — deliver the finished document, which is `build` of
+    the builder events of the text. The model's third outcome (a loop out of fuel) never occurs (`TK.fuel_suffices`). -/
+theorem pipeline_outcome (c : PCfg) (text : PStr) :
+    ((run c.tp text).flag = .ok ∧
+      feedClose c text = .tree (Builder.build c.bcfg (eventsOf c text)) (Adapter.toEvents c.acfg (callbacks (run c.tp text))).2) ∨
+    ((run c.tp text).flag = .err ∧ feedClose c text = .rejected) := by
+  cases hf : (run c.tp text).flag with
+  | ok => left; exact ⟨rfl, (feedClose_tree_iff c text _ _).2 ⟨hf, rfl, rfl⟩⟩
+  | err => right; exact ⟨rfl, (feedClose_rejected_iff c text).2 hf⟩
+  | stuck => exact absurd hf (run_not_stuck c.tp text)
+
+/-- … and never in the model's `outOfFuel` -/
+theorem pipeline_total (c : PCfg) (text : PStr) : feedClose c text ≠ .outOfFuel := feedClose_not_outOfFuel c text
+
+/-- **the tree of every text is well linked and completely closed** (C03's theorems at the builder events of the text,
+    whether or not the tokenizer then rejects it): the pointer heap the construction leaves is `Good` (all six link fields
+    and the children lists describe one forest), only the BeautifulSoup object is left on the parser's tag stack, and the
+    machine's own stacks and text buffer are empty. -/
+theorem pipeline_tree_well_linked (c : PCfg) (hc : Builder.CfgOK c.bcfg) (text : PStr) :
+    Heap.Good (ParseLink.prun ParseLink.PSt.init (ParseLink.actions c.bcfg (Builder.St.init c.bcfg) (eventsOf c text))).heap ∧
+    (ParseLink.prun ParseLink.PSt.init (ParseLink.actions c.bcfg (Builder.St.init c.bcfg) (eventsOf c text))).stack = [0] ∧
+    (let st := Builder.finish c.bcfg (Builder.run c.bcfg (Builder.St.init c.bcfg) (eventsOf c text))
+     st.stack.length = 1 ∧ st.pws = [] ∧ st.scs = [] ∧ st.buf = []) :=
+  ⟨C03.parsed_document_well_linked c.bcfg _, C03.parsed_everything_closed c.bcfg hc _, C03.all_closed c.bcfg hc _⟩
+
+/-- **which texts are rejected — "only if".** A rejected text contains, at some index `i`, `<![` followed by what makes
+    `parse_marked_section` raise (`RaisesAt`): a character that is no ASCII letter ("expected name token"), or a name
+    `[a-zA-Z][-_.a-zA-Z0-9]*`, optional whitespace and at least one more character, the ASCII-lowered name being none of
+    `temp cdata ignore include rcdata if else endif` ("unknown status keyword"). No closing `]>` is needed.
+    (Stronger than `TK.error_only_from_marked_section`, which only finds `<![`.) -/
+theorem rejected_only_if_marked_section (c : PCfg) (text : PStr) (h : feedClose c text = .rejected) :
+    ∃ i, RaisesAt (text.drop i) :=
+  run_err_raisesAt c.tp text ((feedClose_rejected_iff c text).1 h)
+
+/-- contrapositive, in the form the harness uses: a text in which no `<![` is followed by a non-letter or by a complete
+    unknown keyword is parsed to a tree -/
+theorem accepted_if_no_raising_section (c : PCfg) (text : PStr) (h : ∀ i, ¬ RaisesAt (text.drop i)) :
+    ∃ docs infos, feedClose c text = .tree docs infos := by
+  rcases pipeline_outcome c text with ⟨_, h1⟩ | ⟨_, h2⟩
+  · exact ⟨_, _, h1⟩
+  · obtain ⟨i, hi⟩ := rejected_only_if_marked_section c text h2
+    exact absurd hi (h i)
+
+/-- **exactly which turn raises.** A turn of `goahead`'s loop (either phase) ends in the `AssertionError` if and only if
+    the parser is in normal mode — not inside `<script>`/`<style>`, where only `</script>` is looked for — and the first
+    `<` or `&` of the remaining buffer starts a suffix with `RaisesAt`. This is the "position the tokenizer reaches in
+    markup-declaration context" of the characterisation; the run-level statement `rejected ↔ some turn of the run is such
+    a turn` is the part NOT proved (it needs the list of turns of a run as an object; see `rejected_if_plain_prefix` for the
+    converse on the first turn). -/
+theorem turn_rejects_iff (P : Params) (end_ : Bool) (st : Tokenizer.St) :
+    (Tokenizer.step P end_ st).2.2 = some .err ↔ st.cd = none ∧ RaisesAt (st.s.drop (spanLen isPlain st.s)) :=
+  step_err_iff P end_ st
+
+/-- **"if", where the offending section is the first markup of the text**: plain text (no `<`, no `&`) followed by a
+    suffix with `RaisesAt` is rejected, whatever follows. -/
+theorem rejected_if_plain_prefix (c : PCfg) (pre s : PStr) (hpre : ∀ x ∈ pre, isPlain x = true) (hs : RaisesAt s) :
+    feedClose c (pre ++ s) = .rejected :=
+  (feedClose_rejected_iff c _).2 (run_err_of_plain_prefix c.tp pre s hpre hs)
+
+/-- `parse_marked_section` itself: it raises on a suffix beginning with `<![` exactly under `RaisesAt` -/
+theorem marked_section_raises_iff (cd : Option PStr) (s : PStr) :
+    (sw [60, 33, 91] s = true ∧ parseMarkedSection cd s = .err) ↔ RaisesAt s := raisesAt_iff cd s
+
+/-- **nothing from a rejected attempt remains**: when the constructor's retry loop is offered the texts `rej`, each of
+    which the tokenizer rejects part-way (after any number of callbacks), and then a text that parses, the document is the
+    parse of that text alone — whatever state the object was in before and whatever is offered afterwards. (With
+    `html.parser`, `prepare_markup` offers one text only; the list form is the builder-agnostic loop of
+    `bs4/__init__.py:468-486`, composed with C03 `rejected_strategies_leave_no_trace`.) -/
+theorem rejected_texts_leave_no_trace (c : PCfg) (st : Builder.St) (rej : List PStr)
+    (hr : ∀ t ∈ rej, feedClose c t = .rejected) (text : PStr) (docs : List Builder.Doc) (infos : List Adapter.StartInfo)
+    (ht : feedClose c text = .tree docs infos) (later : List Builder.Attempt) :
+    Builder.parseLoop c.bcfg st (rej.map (attemptOf c) ++ attemptOf c text :: later) = some docs := by
+  obtain ⟨hok, hdocs, _⟩ := (feedClose_tree_iff c text docs infos).1 ht
+  have ha : attemptOf c text = ⟨eventsOf c text, false⟩ := by simp [attemptOf, hok]
+  rw [ha, hdocs]
+  apply C03.rejected_strategies_leave_no_trace
+  intro a hmem
+  obtain ⟨t, htm, rfl⟩ := List.mem_map.1 hmem
+  simp [attemptOf, (feedClose_rejected_iff c t).1 (hr t htm)]
+
+/-- every text offered is rejected: no document, the caller sees `ParserRejectedMarkup` -/
+theorem all_texts_rejected_no_document (c : PCfg) (st : Builder.St) (rej : List PStr)
+    (hr : ∀ t ∈ rej, feedClose c t = .rejected) : Builder.parseLoop c.bcfg st (rej.map (attemptOf c)) = none := by
+  apply C03.all_rejected_no_document
+  intro a hmem
+  obtain ⟨t, htm, rfl⟩ := List.mem_map.1 hmem
+  simp [attemptOf, (feedClose_rejected_iff c t).1 (hr t htm)]
+
+/-- **the tokenizer hypothesis of the envelope, discharged for the model.** Both phases of the tokenizer model
+    (`feed` = `goahead(0)`, `close` = `goahead(1)`) raise nothing but `AssertionError` … -/
+theorem tokenizer_model_raises_only_assertion (tp : Params) (text : PStr) (e : Construct.Err) :
+    ((tokFeedModel tp text).2 = some e → e = .assertionError) ∧ ((tokCloseModel tp text).2 = some e → e = .assertionError) :=
+  tokModel_raises tp text e
+
+/-- … they are the run cut in two (same callbacks in the same order; the run is rejected exactly when a phase raises) … -/
+theorem tokenizer_phases_are_run (tp : Params) (text : PStr) :
+    ((tokFeedModel tp text).2 = none →
+        (tokFeedModel tp text).1 ++ (tokCloseModel tp text).1 = (run tp text).evs.filterMap toEvent ∧
+        ((tokCloseModel tp text).2 = some .assertionError ↔ (run tp text).flag = .err)) ∧
+    ((tokFeedModel tp text).2 ≠ none →
+        (tokFeedModel tp text).1 = (run tp text).evs.filterMap toEvent ∧ (run tp text).flag = .err) :=
+  phases_are_run tp text
+
+/-- … so with the tokenizer model in the place of the two tokenizer primitives, **no exception other than
+    `ParserRejectedMarkup` escapes the constructor** on any call path, for every `str`/`bytes` markup and every behaviour
+    of the REMAINING primitives within the recorded kinds (`P`'s own `tokFeed`/`tokClose` are overwritten; the hypothesis
+    about them is met by any quiet value). What stays in the residue for the tokenizer: `html.unescape` inside
+    `parse_starttag` raising `ValueError` (a parameter of the model, total here). -/
+theorem envelope_live_tokenizer_model {V : Type} (P : Prims V) (hP : P.Within Gen.C06.recorded) (tp : Params)
+    (F : Frame V) (o0 : Obj V) (mk : Markup) :
+    (constructE Code.live (withTokenizer P tp) F o0 mk).2 = .ok () ∨
+    (constructE Code.live (withTokenizer P tp) F o0 mk).2 = .error .parserRejectedMarkup :=
+  envelope_live _ (withTokenizer_within P _ hP tp (by decide)) F o0 mk
+
+/-! non-vacuity -/
+/-- the sample configuration: `html.unescape` = identity, `str.lower` on ASCII, `br` void, no entities -/
+def cX : PCfg :=
+  { tp := { unescape := id, lower := asciiLower },
+    acfg := { isVoid := fun n => n == BS.ofS "br", dup := .replace, storeLines := true, entity := fun _ => none,
+              cp1252 := fun _ => none, origDecode := fun _ => none, maxDigits := 4300 },
+    bcfg := C03.cfgX }
+
+example : Builder.CfgOK cX.bcfg := by decide
+example : (run cX.tp (BS.ofS "<p>a<br>b</p>")).flag = .ok := by decide
+example : Builder.build cX.bcfg (eventsOf cX (BS.ofS "<p>a<br>b")) =
+    [.elem (BS.ofS "p") none [.text 0 [97], .elem (BS.ofS "br") none [], .text 0 [98]]] := by rfl
+/-- unknown keyword, complete: rejected — after the callbacks for `<p>a` -/
+example : (run cX.tp (BS.ofS "<p>a<![foo]>")).flag = .err ∧ (eventsOf cX (BS.ofS "<p>a<![foo]>")).length = 2 := by decide
+example : RaisesAt (BS.ofS "<![foo]>") :=
+  ⟨rfl, Or.inr ⟨102, [111, 111], [], 93, [62], rfl, by decide, by decide, by simp, by decide, by decide, by decide⟩⟩
+example : RaisesAt (BS.ofS "<![ x") := ⟨rfl, Or.inl ⟨32, rfl, by decide⟩⟩
+example : feedClose cX (BS.ofS "text <![foo]> more") = .rejected :=
+  rejected_if_plain_prefix cX (BS.ofS "text ") (BS.ofS "<![foo]> more") (by decide)
+    ⟨rfl, Or.inr ⟨102, [111, 111], [], 93, _, rfl, by decide, by decide, by simp, by decide, by decide, by decide⟩⟩
+/-- known keywords (any case), unterminated sections, a keyword running to the end of input, `<![` inside a comment or
+    inside `<script>`: not rejected -/
+example : ∀ t ∈ ["<![CDATA[x]]>", "<![cdata[x", "<![IF x]>", "<![endif]>", "<![foo", "<![foo ", "<![", "<!--<![foo]>-->",
+      "<script><![foo]></script>", "<![CDATA[<![foo]>]]>"], (run cX.tp (BS.ofS t)).flag = .ok := by decide
+/-- … and the same sections where the tokenizer does reach them: rejected -/
+example : ∀ t ∈ ["<![foo]>", "<![foo x", "<![1]>", "<![]>", "<![ if]>", "<![CDATAX[x]]>", "<![if-x]>", "<!--x--><![foo]>",
+      "<script></script><![foo]>", "<![CDATA[x]]><![foo]>", "<a b='<![foo]>'><![foo]>"], (run cX.tp (BS.ofS t)).flag = .err := by
+  decide
+example : Builder.parseLoop cX.bcfg (Builder.St.init cX.bcfg)
+      ([BS.ofS "<p>poison<![foo]>"].map (attemptOf cX) ++ attemptOf cX (BS.ofS "<b>x") :: []) =
+    some (Builder.build cX.bcfg (eventsOf cX (BS.ofS "<b>x"))) :=
+  rejected_texts_leave_no_trace cX _ [BS.ofS "<p>poison<![foo]>"]
+    (by intro t ht; simp at ht; subst ht; exact (feedClose_rejected_iff _ _).2 (by decide)) (BS.ofS "<b>x") _ _
+    ((feedClose_tree_iff _ _ _ _).2 ⟨by decide, rfl, rfl⟩) []
+example : (constructE Code.live (withTokenizer Prims.quiet cX.tp) Frame.unit (fun _ => ()) (.str (BS.ofS "<p>"))).2 = .ok () := by
+  decide
+example : (tokFeedModel cX.tp (BS.ofS "<p>&#65;<![foo]>")).1.length = 2 ∧
+    (tokFeedModel cX.tp (BS.ofS "<p>&#65;<![foo]>")).2 = some .assertionError := by decide
+
+end TokenizerModel
 
 end BS.Props.C06
